@@ -109,10 +109,7 @@ func cmdCheck(args []string) int {
 	P.LoadS = time.Since(start).Seconds()
 	exit := 0
 	for _, id := range ids {
-		t0 := time.Now()
-		if len(ids) == 1 {
-			t0 = start
-		}
+		t0 := start // wall time includes loading and SSA construction of /repo
 		c := &Ctx{P: P, Prop: id, Tier: *tier}
 		registry[id].Run(c)
 		extra := map[string]interface{}{"load_s": P.LoadS}
